@@ -1,9 +1,9 @@
 (* PitCs/Extract.v — extraction of the executable model and of the spec oracles for the correspondence runner.
    ExtrOcamlBasic only: bool, option, unit, list, prod, sumbool, sumor -> OCaml natives; N/Z/positive/nat stay Coq datatypes. *)
 From Coq Require Import Extraction ExtrOcamlBasic NArith ZArith.
-From PitCs Require Import Model Spec.
+From PitCs Require Import GenConsts Model Spec.
 Extraction Language OCaml.
 Extraction "pitcs_model.ml"
-  init step
+  init step gen_dnl_tick_ms
   c_init c_adv c_setcap c_mgmtcap c_insert c_exact c_judge c_same_content c_prefix_ok c08_always c08_quiescent dump_of cache_of
   N.add N.mul N.of_nat N.to_nat N.eqb N.ltb N.div N.modulo Z.add Z.mul Z.sub Z.of_N Z.eqb Z.ltb Z.leb Z.opp Z.div Z.modulo Z.abs_N.
